@@ -28,23 +28,23 @@ macro "ns_tac" : tactic => `(tactic| (constructor <;> grind [List.nodup_append, 
 
 
 theorem setDefault_nsinv (s : N) (p) (h : NsInv s) : NsInv (step s (.setDefault p)).1 := by
-  obtain ⟨h1,h2,h3,h4⟩ := h
+  obtain ⟨h1,h2,h3,h4,h5⟩ := h
   simp only [step]
-  exact ⟨h1,h2,h3,h4⟩
+  exact ⟨h1,h2,h3,h4,h5⟩
 
 theorem detach_nsinv (s : N) (p c) (h : NsInv s) : NsInv (step s (.detach p c)).1 := by
   have U3 := names_unique' h
   have U4 := idents_unique' h
-  obtain ⟨h1,h2,h3,h4⟩ := h
+  obtain ⟨h1,h2,h3,h4,h5⟩ := h
   simp only [step, N.tblRemove]
   split
-  · exact ⟨h1,h2,h3,h4⟩
+  · exact ⟨h1,h2,h3,h4,h5⟩
   · ns_tac
 
 theorem removeKey_nsinv (s : N) (e k) (h : NsInv s) : NsInv (s.removeKey e k) := by
   have U3 := names_unique' h
   have U4 := idents_unique' h
-  obtain ⟨h1,h2,h3,h4⟩ := h
+  obtain ⟨h1,h2,h3,h4,h5⟩ := h
   simp only [N.removeKey, N.tblRemove]
   cases hp : s.parent e with
   | none => simp only []; cases k <;> ns_tac
